@@ -25,7 +25,7 @@ def main():
         demo = os.path.join(d, 'demo.py')
         def run_demo():
             src = open(demo).read()
-            src = re.sub(r'/tmp/wt2?-c\d+', wt, src)
+            src = re.sub(r'/tmp/wt\d?-c\d+', wt, src)
             p = os.path.join(wt, '_demo.py'); open(p, 'w').write(src)
             try:
                 r = sh(['/venv/bin/python', p], cwd=wt, env=dict(os.environ, PYTHONPATH=wt), timeout=300)
